@@ -117,12 +117,44 @@ def stmt_op(expr):
     return m.group(1) if m else '?'
 
 
+
+def nullability_cases(rng, n):
+    """dataset∘dataset operators whose operands DISAGREE on the nullability of the measure (one declares it non-nullable and
+    holds no null, the other is nullable and holds nulls on shared keys), both ways round: a result component that may be null
+    must be predicted nullable."""
+    from fractions import Fraction
+    out = []
+    for i in range(n):
+        mt = rng.choice(['Number', 'Integer', 'String'])
+        def val():
+            return {'Number': Fraction(rng.randint(-50, 50), rng.choice([1, 2, 4])), 'Integer': rng.randint(-9, 9), 'String': rng.choice(['a', 'b', 'ab', 'B'])}[mt]
+        ids = [('Id_1', 'Integer')]
+        keys = [1, 2, 3, 4]
+        env = {'DS_1': {'ids': ids, 'meas': [('Me_1', mt)], 'rows': [(k, val()) for k in keys], 'nn': ['Me_1']},
+               'DS_2': {'ids': ids, 'meas': [('Me_1', mt)], 'rows': [(k, None if k % 2 == 0 else val()) for k in keys]}}
+        a, b = ('DS_1', 'DS_2') if i % 2 == 0 else ('DS_2', 'DS_1')
+        if mt == 'String':
+            op = rng.choice(['=', '<>', '<', '>', '||'])
+        else:
+            op = rng.choice(['=', '<>', '<', '<=', '>', '>=', '+', '-', '*'])
+        kind = i % 3
+        if kind == 0:
+            vtl = 'DS_r <- %s %s %s;' % (a, op, b)
+        elif kind == 1:
+            vtl = 'T_1 := %s %s %s; DS_r <- T_1[filter true];' % (a, op, b)
+        else:
+            vtl = 'DS_r <- nvl(%s, %s);' % (b, a) if i % 2 else 'DS_r <- if %s %s %s then %s else %s;' % (a, '=' if mt == 'String' else '<=', b, a, b)
+        out.append({'family': 'nullability', 'env': env, 'vtl': vtl, 'sx': '_', 'ops': ['zip'], 'flat': True, 'depth': 1, 'ids': ids, 'meas': [('Me_1', mt)]})
+    return out
+
+
 def main(ck):
     pr = ck.proof('C10', extra_modules=('VtlModel.Props.C10Types',))
     q = ck.quick()
     g = G.Gen(ck.rng, nonnull_decl=True)
     gflat = G.Gen(ck.rng, flat=True, nonnull_decl=True)
     cases = [g.case(depth=ck.rng.choice([1, 1, 2, 3])) for _ in range(100 if q else 2500)] + [gflat.case() for _ in range(100 if q else 2500)]
+    cases += nullability_cases(ck.rng, 24 if q else 300)
     jobs = []
     for c in cases:
         jobs.append((c, {'semantic': True}))
